@@ -53,9 +53,14 @@ pub fn exec(line: &str, _model: &mut Model) -> Option<Exec> {
     match t[0] {
         "rx" => {
             let bytes = unhex(t.get(1)?)?;
-            let r = no_panic(|| Bundle::try_from(bytes.as_slice()));
+            // an allocation failure aborts the process: leave the op line behind for the check script
+            note_line(line);
+            let (r, peak) = crate::p_ffi::metered(|| no_panic(|| Bundle::try_from(bytes.as_slice())));
             let mut e;
+            // generous linear bound: decoded values, serde_cbor scratch space and Vec growth stay far below it
+            let bound = 1_048_576 + 256 * bytes.len() as u64;
             match r {
+                _ if peak > bound => { e = Exec::new(match &r { None => "panic".into(), Some(Err(_)) => "err".into(), Some(Ok(_)) => "ok".into() }); e.oracle_fail = Some(format!("decoding {} input bytes held {} bytes allocated at one time (bound {})", bytes.len(), peak, bound)); }
                 None => { e = Exec::new("panic".into()); e.oracle_fail = Some("decoder panics".into()); }
                 Some(Err(_)) => { e = Exec::new("err".into()); }
                 Some(Ok(b)) => {
@@ -183,6 +188,26 @@ pub fn mutate(rng: &mut Rng, base: &[u8]) -> Vec<u8> {
     v
 }
 
+/// the outer indefinite-length array replaced by a definite-length header announcing `count` blocks
+/// (true count, small, boundary and absurd values; minimal and non-minimal head forms)
+fn outer_definite(rng: &mut Rng, base: &[u8]) -> Vec<u8> {
+    let blocks = cborx::bundle_blocks(base).map(|b| b.len() as u64).unwrap_or(1);
+    let count = match rng.below(12) { 0 | 1 => blocks, 2 => blocks + 1, 3 => blocks.saturating_sub(1), 4 => 0, 5 => 1 << 28, 6 => (1 << 32) - 1, 7 => 1 << 32, 8 => 1 << 60, 9 => u64::MAX, 10 => 65_536, _ => rng.u64b() };
+    let mut head = match rng.below(5) {
+        0 if count < 24 => vec![0x80 | count as u8],
+        1 if count < 256 => vec![0x98, count as u8],
+        2 if count < 65_536 => { let mut h = vec![0x99]; h.extend_from_slice(&(count as u16).to_be_bytes()); h }
+        3 if count < (1 << 32) => { let mut h = vec![0x9a]; h.extend_from_slice(&(count as u32).to_be_bytes()); h }
+        _ => { let mut h = vec![0x9b]; h.extend_from_slice(&count.to_be_bytes()); h }
+    };
+    let mut body = base.to_vec();
+    if body.first() == Some(&0x9f) { body.remove(0); }
+    if rng.chance(3, 4) && body.last() == Some(&0xff) { body.pop(); }
+    if rng.chance(1, 6) { let k = rng.below(body.len() as u64 + 1) as usize; body.truncate(k); }
+    head.extend(body);
+    head
+}
+
 fn deep_nesting(rng: &mut Rng) -> Vec<u8> {
     // long tag / array chains around the 128-level recursion limit
     let n = *rng.pick(&[120usize, 124, 125, 126, 127, 128, 129, 130, 200, 300]);
@@ -239,7 +264,7 @@ fn gen_c06(rng: &mut Rng, ctx: &mut Ctx, rep: &mut Report, emit: Emit) {
             for c in b.canonicals.iter_mut() { if matches!(c.data(), CanonicalData::DecodingError) { c.set_data(CanonicalData::Unknown(vec![])); } }
         }
         let base = match no_panic(|| b.to_cbor()) { Some(x) => x, None => continue };
-        let m = match rng.below(20) { 0 => base.clone(), 1 => deep_nesting(rng), 2 | 3 => depth_probe(rng, &base), _ => mutate(rng, &base) };
+        let m = match rng.below(20) { 0 => base.clone(), 1 => deep_nesting(rng), 2 | 3 => depth_probe(rng, &base), 4 | 5 => outer_definite(rng, &base), _ => mutate(rng, &base) };
         emit(ctx, rep, format!("rx {}", hex(&m)));
         // on what decodes, the full results of the receive-path operations are compared as well
         if i % 5 == 0 {
